@@ -206,6 +206,19 @@ func init() {
 			st.Sched.Steps++
 			key := st.nextKey("$sched")
 			st.Nondet = append(st.Nondet, NondetRec{Key: key, Kind: "choice", Term: fmt.Sprint(i)})
+			// what the step starts from: a controllable point (thread start / zz.Yield) or a
+			// synchronisation point (mutex, WaitGroup, channel) - the native replay needs to know
+			kind := "start"
+			if th := st.Threads[i]; th.AtYield && len(th.Stack) > 0 {
+				kind = "sync"
+				f := th.Stack[len(th.Stack)-1]
+				if call, ok := f.Block.Instrs[f.PC].(*ssa.Call); ok {
+					if fn, ok := call.Call.Value.(*ssa.Function); ok && fn.String() == rtPkg+"Yield" {
+						kind = "yield"
+					}
+				}
+			}
+			st.Nondet = append(st.Nondet, NondetRec{Key: st.nextKey("$schedkind"), Kind: "label", Term: kind})
 			st.Trace = append(st.Trace, fmt.Sprintf("sched: run %s", st.Threads[i].Name))
 			st.Threads[0].Stack[depth-1].PC-- // re-run RunSchedule when control returns
 			st.Cur = i
@@ -216,6 +229,20 @@ func init() {
 		}
 		return out, true
 	})
+	reg("Go", func(c *icall) ([]*State, bool) {
+		s := c.s
+		th := &Thread{ID: len(s.Threads), Name: litArg(c.args[0], "thread name")}
+		s.Threads = append(s.Threads, th)
+		cur := s.Cur
+		s.Cur = th.ID
+		forks, done := c.w.call(s, nil, nil, c.args[1], nil)
+		s.Cur = cur
+		if done || len(forks) > 0 {
+			panic(engineErr("zz.Go target forked at entry"))
+		}
+		return nil, false
+	})
+	reg("ResetSchedule", func(c *icall) ([]*State, bool) { return nil, false })
 	reg("Yield", func(c *icall) ([]*State, bool) {
 		c.yieldPoint()
 		return nil, false
